@@ -314,6 +314,21 @@ G.gamma_value = gamma_value
 
 
 def gen(rng, backend):
+    if rng.random() < 0.15:
+        # longer sequences (6..12) of one repeated value with one or two different values late: prefix tests
+        # (`array[0:5]`, `head`) must not decide for the whole sequence
+        pool = rng.choice([[["str", "nan"], ["str", "1.5"], ["str", "2"]], [["str", "1"], ["str", "a"], ["str", "2.5"]],
+                           [["str", "a"], ["int", 1], ["bytes", "ab"]], [["int", 1], ["str", "a"], ["float", 1.5]],
+                           [["float", 1.0], ["float", 2.5], ["nan"]], [["str", "NaN"], ["str", "3"], ["str", "x"]],
+                           [["str", "true"], ["str", "no"], ["str", "1"]], [["bool", True], ["int", 2], ["none"]]])
+        n = rng.randint(6, 12)
+        vals = [pool[0]] * n
+        for _ in range(rng.choice([1, 2])):
+            vals[rng.randint(5, n - 1)] = rng.choice(pool[1:])
+        r = {"values": vals, "stream": backend + ":late-deviant"}
+        if backend == "numpy" and (rng.random() < 0.5 or any(v[0] not in ("str",) for v in vals)):
+            r["npdtype"] = "object"
+        return r
     n = rng.choice([0, 1, 1, 2, 3, 4, 6])
     if backend == "numpy":
         k = rng.choice(list(NP_POOLS))
@@ -374,8 +389,12 @@ def run_backend(tier, seed, backend, n=None, nproc=16):
                         {"values": [["npint", 1, "int64"], ["none"], ["npint", 3, "int64"]], "npdtype": "object", "stream": "corpus:np-int-scalars"},
                         {"values": [["int", 1], ["npint", 3, "int32"]], "npdtype": "object", "stream": "corpus:int-then-np-int"},
                         {"values": [["pyts", "2020-01-01"], ["dt", "2020-01-01T00:00:00"]], "npdtype": "object", "stream": "corpus:timestamp-datetime"},
-                        {"values": [["bytes", "ab"], ["bytes", "c"]], "stream": "corpus:bytes-dtype"}],
+                        {"values": [["bytes", "ab"], ["bytes", "c"]], "stream": "corpus:bytes-dtype"},
+                        {"values": [["str", "nan"]] * 5 + [["str", "1.5"]], "stream": "corpus:nan-strings-then-number"},
+                        {"values": [["str", "NaN"]] * 6 + [["str", "2"], ["str", "3"]], "npdtype": "object", "stream": "corpus:nan-strings-then-ints"}],
               "list": [{"values": [["bool", False], ["str", "1.5"]], "stream": "corpus:fixed-F22b"},
+                       {"values": [["none"]], "stream": "corpus:all-none"}, {"values": [["none"], ["none"]], "stream": "corpus:all-none2"},
+                       {"values": [["int", 1], ["none"]], "stream": "corpus:int-none"},
                        {"values": [["float", 0.0], ["float", 0.0], ["float", 0.0]], "stream": "corpus:fixed-F34"},
                        {"values": [["int", 0], ["int", 0]], "stream": "corpus:fixed-F34b"},
                        {"values": [["dt", "2020-01-01T10:00:00"]], "stream": "corpus:fixed-F35"},
